@@ -8,6 +8,7 @@
    exop.construct <hex|none> <hex|none> -> trees | panic
    spec.ctl.dec / spec.exop.dec <name> <hex|none> -> canonical struct by the RFC decoder | none -/
 import Ldap3V.Driver.Util
+import Ldap3V.Driver.Entry
 import Ldap3V.Model.Codecs
 import Ldap3V.Spec.Codecs
 namespace Ldap3V.Driver.CodecsD
@@ -30,7 +31,7 @@ def showRaw (rc : RawControl) : String :=
 
 def showExop (e : Exop) : String := s!"name={showOptHex e.name} val={showOptHex e.val}"
 
-def showOutcome {α : Type} (f : α → String) : Outcome α → String
+def showOutcome {α : Type} (f : α → String) : Codecs.Outcome α → String
   | .ok v => f v
   | .panic => "panic"
 
@@ -47,7 +48,7 @@ def showHexList (l : List Bytes) : String := "[" ++ ",".intercalate (l.map hexOf
 def optTlv (s : String) : Option (Option Tlv) :=
   if s.trimAscii.toString == "none" then some none else (parseTlv s).map some
 
-def encControl (name rest : String) : Option (Outcome RawControl) :=
+def encControl (name rest : String) : Option (Codecs.Outcome RawControl) :=
   let ws := words rest
   match name, ws with
   | "paged", [sz, ck] =>
@@ -133,6 +134,8 @@ def parseCtl (name : String) (val : Option Bytes) : Option String :=
   | "syncdone" => some (showOutcome (fun (v : SyncDone) =>
       s!"cookie={showOptHex v.cookie} rd={showBit v.refreshDeletes}") (parseVal parseSyncDone val))
   | "readentry" => some (showOutcome (fun t => s!"ok {showTlv t}") (parseVal parseReadEntryOuter val))
+  | "readentryresp" => some (showOutcome (fun (r : ReadEntryResp) =>
+      s!"ok text={EntryD.showMap r.text} bin={EntryD.showMap r.bin}") (parseVal parseReadEntryResp val))
   | _ => none
 
 def parseExop (name : String) (val : Option Bytes) : Option String :=
@@ -172,7 +175,7 @@ def handleCodecs (cmd arg : String) : Option String :=
     let r := if name == "critical" then
         let (n2, r2) := splitCmd rest
         (encControl n2 r2).map fun o => match o with
-          | .ok rc => Outcome.ok (critical rc)
+          | .ok rc => Codecs.Outcome.ok (critical rc)
           | .panic => .panic
       else encControl name rest
     some ((r.map (showOutcome showRaw)).getD bad)
